@@ -352,6 +352,14 @@ Cand(T, cv) ==
   ELSE {KK(g) : g \in ScalarKinds(t)} \cup {KPtr(KK(NatKind(t)))} \cup (IF t \in IntColTypes THEN {KPtr(KK("int64")), KPtr(KK("bigint")), KPtr(KK("string"))} ELSE {})
 
 Strip(K) == IF K.g = "ptr" THEN K.e ELSE K
+\* the encoding r of a boolean / of a list or set of non-null booleans with every true written as another non-zero byte
+BoolAlt(T, r, p) ==
+  IF r.st # "ok" THEN r
+  ELSE IF T.t = "boolean" THEN (IF r.b = <<1>> THEN ROk(<<255>>) ELSE r)
+  ELSE IF T.t \in {"list", "set"} /\ T.e.t = "boolean" /\ Len(r.b) >= SizeWidth(p) /\ (Len(r.b) - SizeWidth(p)) % (SizeWidth(p) + 1) = 0
+  THEN LET H == SizeWidth(p) IN
+       ROk([i \in 1 .. Len(r.b) |-> IF i > H /\ (i - H) % (H + 1) = 0 /\ r.b[i] = 1 THEN 2 + (i % 2) * 126 ELSE r.b[i]])
+  ELSE r
 Expect(i) ==
   LET c == Cases[i]
       alts == SrcAlts(c.T, c.K, c.gv)
@@ -373,7 +381,11 @@ Expect(i) ==
       claimed |-> Claimed(c.T, c.K), conv |-> conv, ref |-> AnyRefusable(c.T, c.K, c.gv),
       spec |-> IF conv = "ok" THEN Enc(c.T, cv, c.p) ELSE RErr,
       \* a second conformant encoding of the same value: trailing null fields of UDT values absent (RErr: there is none)
-      spec2 |-> IF conv = "ok" /\ EncShort(c.T, cv, c.p) # Enc(c.T, cv, c.p) THEN EncShort(c.T, cv, c.p) ELSE RErr,
+      \* ... or booleans that are true written with another non-zero byte ("a value of 0 denotes false, any other value
+      \* denotes true"): boolean columns and lists / sets of booleans without null elements
+      spec2 |-> IF conv = "ok" /\ EncShort(c.T, cv, c.p) # Enc(c.T, cv, c.p) THEN EncShort(c.T, cv, c.p)
+                ELSE IF conv = "ok" /\ BoolAlt(c.T, Enc(c.T, cv, c.p), c.p) # Enc(c.T, cv, c.p) THEN BoolAlt(c.T, Enc(c.T, cv, c.p), c.p)
+                ELSE RErr,
       alts |-> IF conv = "ok" THEN encs ELSE {},
       targets |-> tg]
 
